@@ -28,9 +28,14 @@ func vxH19Conns() {
 	vxQuiesce()
 	vxAssert(len(nb.writes) == 2, "second-connection-answered")
 	nb.hangup()
+	// ... and yet another client connects while that one is being torn down
+	nd := vxNewNetConn()
+	kit.srv.NewConn(nd)
+	nd.in <- ver
 	na.in <- refEncode(Tread, 12, []refItem{refU32(1), refU64(6), refU32(2)}, true)
 	vxQuiesce()
 	vxAssert(len(na.writes) == 7, "busy-connection-answered")
 	vxAssert(kit.ops.closed == 1, "dropped-connection-closed")
+	vxAssert(len(nd.writes) == 1, "third-connection-answered")
 	vxReach("done")
 }
